@@ -62,6 +62,10 @@ func cliRecords(c *Ctx, cases []CLICase) ([]map[string]interface{}, map[string]s
 		if cs.ToFile {
 			outFile = filepath.Join(dir, fmt.Sprintf("out%d.inc", i))
 			args = append(args, "-o", outFile)
+			if i%2 == 0 {
+				// a rebuild: the output file exists already and is longer than what will be written
+				os.WriteFile(outFile, []byte(strings.Repeat("Stale::\n\tstale_command\n\treturn\n\n", 4000)), 0o644)
+			}
 		}
 		so, se, exit, to := RunBinary(c.Bin, cs.Src, args, 15*time.Second)
 		got := so
